@@ -142,7 +142,7 @@ func runGenOps(r *run) error {
 		e := verifhook.FileEntry{Name: "e", Length: int64(len(content)), ModTime: []int64{0, 1_500_000_000, -86400, 2_000_000_000, 1}[g.intn(5)],
 			Mode: typeBits(ek) | int32(g.intn(0o1000)), Uid: int32([]int{0, 1234, 65534}[g.intn(3)]), Gid: int32([]int{0, 4321, 65534}[g.intn(3)])}
 		if ek == "lnk" {
-			e.LinkTarget = []string{"target", "../x", "/abs", "t\xff"}[g.intn(4)]
+			e.LinkTarget = []string{"target", "../x", "/abs", "t\xff", "a/../b", "./c", "d//e", "f/"}[g.intn(8)]
 		}
 		if ek == "chr" || ek == "blk" {
 			e.Rdev = int32(1<<8 | g.intn(200))
